@@ -65,7 +65,8 @@ def node_schedule(res, node):
 class Run(object):
     """One check run: accumulates batches, verdicts and coverage numbers."""
 
-    def __init__(self, prop, tier, clauses, module="Trace", conform=False, conform_budget=None):
+    def __init__(self, prop, tier, clauses, module="Trace", conform=False, conform_budget=None, keep_obs=False):
+        self.keep_obs = keep_obs       # keep every node's observation in memory (C17's rerun groups read them)
         self.conform, self.conform_budget, self.conform_nodes = conform, conform_budget, 0
         self.prop, self.tier, self.clauses, self.module = prop, tier, tuple(clauses), module
         self.t0 = time.time()
@@ -95,8 +96,18 @@ class Run(object):
         shutil.rmtree(self.tmp, ignore_errors=True)
 
     # -- exploration + validation ------------------------------------------------------------
-    def add_jobs(self, jobs, procs=16, batch_nodes=12000, tlc_workers=16):
-        self.add_results(explore_all(jobs, procs), batch_nodes, tlc_workers)
+    def add_jobs(self, jobs, procs=16, batch_nodes=12000, tlc_workers=16, chunk=96):
+        """explore and validate in chunks; once a chunk is validated the observations of its trees are dropped
+        (parents, choices and final observations stay: replays and the relational checks need only those) unless
+        the check asked to keep them - thousands of full trees do not fit the main process otherwise"""
+        jobs = list(jobs)
+        for k in range(0, len(jobs), chunk):
+            results = explore_all(jobs[k:k + chunk], procs)
+            self.add_results(results, batch_nodes, tlc_workers)
+            if not self.keep_obs:
+                for r in results:
+                    if r.get("ok"):
+                        r["tree"]["nodes"] = [{"p": n["p"]} for n in r["tree"]["nodes"]]
 
     def add_mc(self, defs, own, max_pause=0, max_cancel=0, max_steps=14, known=None, replay=True,
                lang="yaql", timeout=900, bound_check=False, max_rerun=0, intended=False):
